@@ -1050,25 +1050,39 @@ func runSet(c *fw.Ctx, k *checker, as []*acc) {
 		long = append(long, v4opt.Route{Width: 32, Dest: [4]byte{192, 168, byte(i), 1}, Router: [4]byte{10, 0, byte(i), 254}})
 	}
 	rlists = append(rlists, long)
-	for _, l := range rlists {
-		l := l
-		mk := func() []*dhcpv4.Route {
-			var o []*dhcpv4.Route
+	for li, l := range rlists {
+		for _, form16 := range []bool{false, true} {
+			if form16 && li%3 != 0 && len(l) > 1 {
+				continue // the 16-byte address form (net.ParseIP / net.IPv4 give it) on every single route and a third of the lists
+			}
+			l, form16 := l, form16
+			ipOf := func(a [4]byte) net.IP {
+				if form16 {
+					return net.IPv4(a[0], a[1], a[2], a[3])
+				}
+				return net.IP{a[0], a[1], a[2], a[3]}
+			}
+			mk := func() []*dhcpv4.Route {
+				var o []*dhcpv4.Route
+				for _, r := range l {
+					m := v4opt.MaskOf(r.Width)
+					o = append(o, &dhcpv4.Route{Dest: &net.IPNet{IP: ipOf(r.Dest), Mask: net.IPMask{m[0], m[1], m[2], m[3]}}, Router: ipOf(r.Router)})
+				}
+				return o
+			}
+			ws := []string{}
 			for _, r := range l {
-				m := v4opt.MaskOf(r.Width)
-				o = append(o, &dhcpv4.Route{Dest: &net.IPNet{IP: net.IP{r.Dest[0], r.Dest[1], r.Dest[2], r.Dest[3]}, Mask: net.IPMask{m[0], m[1], m[2], m[3]}},
-					Router: net.IP{r.Router[0], r.Router[1], r.Router[2], r.Router[3]}})
+				if len(ws) < 4 {
+					ws = append(ws, fmt.Sprintf("%d.%d.%d.%d/%d via %d.%d.%d.%d", r.Dest[0], r.Dest[1], r.Dest[2], r.Dest[3], r.Width, r.Router[0], r.Router[1], r.Router[2], r.Router[3]))
+				}
 			}
-			return o
-		}
-		ws := []string{}
-		for _, r := range l {
-			if len(ws) < 4 {
-				ws = append(ws, fmt.Sprintf("%d.%d.%d.%d/%d via %d.%d.%d.%d", r.Dest[0], r.Dest[1], r.Dest[2], r.Dest[3], r.Width, r.Router[0], r.Router[1], r.Router[2], r.Router[3]))
+			form := ""
+			if form16 {
+				form = " (addresses in 16-byte form)"
 			}
+			add(setCase{ctor: "OptClasslessStaticRoute", arg: fmt.Sprintf("%d routes%s: %s", len(l), form, strings.Join(ws, ", ")), apply: upd(func() dhcpv4.Option { return dhcpv4.OptClasslessStaticRoute(mk()...) }),
+				acc: "ClasslessStaticRoute", code: 121, wantRaw: v4opt.EncRoutes(l...), want: v4opt.CanonRoutes(l), class: "route-list"})
 		}
-		add(setCase{ctor: "OptClasslessStaticRoute", arg: fmt.Sprintf("%d routes: %s", len(l), strings.Join(ws, ", ")), apply: upd(func() dhcpv4.Option { return dhcpv4.OptClasslessStaticRoute(mk()...) }),
-			acc: "ClasslessStaticRoute", code: 121, wantRaw: v4opt.EncRoutes(l...), want: v4opt.CanonRoutes(l), class: "route-list"})
 	}
 	// user class, single string (the non-RFC form the accessor documents as fallback)
 	ucNames := []string{"iPXE", "linuxboot", "PXEClient", "\x04iPXE", "\x01a\x01b"}
